@@ -143,7 +143,16 @@ def run(ctx):
                     for n in walk_no_nested(uv.fi.node):
                         if isinstance(n, ast.Assign) and isinstance(n.targets[0], ast.Subscript) and norm(n.targets[0].value) == var and isinstance(n.targets[0].slice, ast.Constant) and isinstance(n.targets[0].slice.value, str):
                             fields.setdefault(n.targets[0].slice.value, n.value)
-            tops = [x for x in dicts if "type" in x[2]]
+            # the top-level record: the dict the method itself returns (found by the returned expression, not by its keys)
+            top_view = uviews[0]
+            returned = []
+            for r_ in walk_no_nested(top_view.fi.node):
+                if isinstance(r_, ast.Return) and r_.value is not None:
+                    rv = r_.value
+                    if isinstance(rv, ast.Name):
+                        rv = top_view.resolve(rv)
+                    returned.append(rv)
+            tops = [x for x in dicts if any(x[1] is rv for rv in returned)] or [x for x in dicts if "type" in x[2]]
             if not tops:
                 raise AnalysisError(f"{f}: top-level dict of the pre-image not found")
             tv, tnode, rd = tops[0]
